@@ -283,3 +283,922 @@ Proof.
     eapply exec_all_cons_ok; [exact Hct|]. cbn [exec_all].
     now rewrite (add_core_plain s tn t col E1 Hf Hcolnew Hres' Hpk s' Hc).
 Qed.
+
+(* ---------- DeleteColumn over an arbitrary enum map ---------- *)
+Section DelCore.
+Variables (s : schema) (tn cn : string) (t : table_def) (c0 : column_def) (E0 : list (string * list string)).
+Let t' := mkTable (t_name t) (t_description t)
+                  (filter (fun c => negb (String.eqb (c_name c) cn)) (t_columns t))
+                  (drop_column_from_constraints cn (t_constraints t)).
+Hypothesis Hnd : nodup_str (map t_name s) = true.
+Hypothesis Hfk : forallb (fun x => (String.eqb (t_name x) tn || negb (existsb (fk_to tn (mem_str cn)) (t_constraints x)))%bool) s = true.
+Hypothesis Hf : find (fun x => String.eqb (t_name x) tn) s = Some t.
+Hypothesis Hhas : has_column cn t = true.
+Hypothesis Havoid : forallb (constraint_avoids cn) (t_constraints t) = true.
+
+Lemma del_core : exists s' A C,
+  apply_action s (DeleteColumn tn cn) = Ok s' /\
+  exec (cat_with s E0) (SAlterTable tn [ADropColumn cn]) = Ok (cat_with s' E0) /\
+  flat_map table_enums s = A ++ table_enums t ++ C /\ flat_map table_enums s' = A ++ table_enums t' ++ C.
+Proof.
+  assert (Hft : (fun t0 : table_def =>
+                   if has_column cn t0
+                   then Ok (mkTable (t_name t0) (t_description t0)
+                                    (filter (fun c => negb (String.eqb (c_name c) cn)) (t_columns t0))
+                                    (drop_column_from_constraints cn (t_constraints t0)))
+                   else Err (ColumnNotFound tn cn)) t = @Ok table_def planner_error t').
+  { cbv beta. now rewrite Hhas. }
+  destruct (update_table_decomp tn _ s t t' Hnd Hf Hft eq_refl) as (s' & A & C & Hup & Hc & H1 & H2).
+  exists s', A, C. split; [exact Hup|]. split; [|split; assumption].
+  pose proof (cat_with_replace s s' tn (table_cat t') E0 Hc) as Hcw.
+  cbn [exec]. rewrite find_table_cat_with, Hf. cbn [option_map exec_alter_ops].
+  unfold exec_alter_op. rewrite find_table_cat_with, Hf. cbn [option_map].
+  rewrite has_col_table_cat, Hhas. cbn [negb].
+  unfold inbound_fks. unfold cat_with at 1. cbn [c_tables].
+  rewrite (inbound_none_p tn (mem_str cn) s Hfk).
+  rewrite Hcw. f_equal. f_equal. f_equal.
+  unfold table_cat at 4. unfold t'. cbn [t_name t_columns t_constraints].
+  rewrite (drop_constraints_avoid cn _ Havoid).
+  unfold table_cat. cbn [pt_name pt_cols pt_cons pt_idx]. f_equal.
+  - apply filter_cols_cat. apply col_cat_ext; reflexivity.
+  - apply filter_all. intros [n k] Hin. cbn [snd]. apply negb_true_iff.
+    apply bt_of_list_in in Hin. apply In_flat_map_first_pk_only in Hin.
+    apply in_flat_map in Hin. destruct Hin as (x & Hx & Hk).
+    pose proof Havoid as Hav. rewrite forallb_forall in Hav. specialize (Hav x Hx).
+    destruct x as [a pc|un uc|fn fc frt frc od' ou'|cn' ce|inn ic]; cbn [con_cat constraint_avoids] in *.
+    + destruct Hk as [E1|[]]. injection E1 as <- <-. cbn [con_involves].
+      apply andb_prop in Hav. destruct Hav as [A1 _]. now apply negb_true_iff in A1.
+    + destruct Hk.
+    + destruct Hk as [E1|[]]. injection E1 as <- <-. cbn [con_involves].
+      repeat (apply andb_prop in Hav; destruct Hav as [Hav ?]).
+      apply negb_true_iff in Hav, H3. rewrite Hav, H3. now rewrite andb_false_r.
+    + destruct Hk as [E1|[]]. injection E1 as <- <-. cbn [con_involves]. now apply negb_true_iff in Hav.
+    + destruct Hk.
+  - apply filter_all. intros [n i] Hin. cbn [snd]. apply negb_true_iff.
+    apply bt_of_list_in in Hin. apply In_flat_map_first_pk_only in Hin.
+    apply in_flat_map in Hin. destruct Hin as (x & Hx & Hk).
+    pose proof Havoid as Hav. rewrite forallb_forall in Hav. specialize (Hav x Hx).
+    destruct x as [a pc|un uc|fn fc frt frc od' ou'|cn' ce|inn ic]; cbn [idx_cat constraint_avoids] in *;
+      try (destruct Hk; fail);
+      destruct Hk as [E1|[]]; injection E1 as <- <-; cbn [pi_cols];
+      apply andb_prop in Hav; destruct Hav as [A1 _]; now apply negb_true_iff in A1.
+Qed.
+End DelCore.
+
+(* ---------- the enum list of a table when a string-enum column goes ---------- *)
+Definition has_enum_name (en : string) (x : column_def) : bool :=
+  match enum_name (c_type x) with Some m => String.eqb m en | None => false end.
+
+Lemma enums_seen_ext tn : forall cols seen1 seen2,
+  (forall x, In x cols -> forall m, enum_name (c_type x) = Some m -> mem_str m seen1 = mem_str m seen2) ->
+  enums_of_cols tn cols seen1 = enums_of_cols tn cols seen2.
+Proof.
+  induction cols as [|c r IH]; intros s1 s2 H; [reflexivity|]. cbn [enums_of_cols].
+  assert (Hr : forall x, In x r -> forall m, enum_name (c_type x) = Some m -> mem_str m s1 = mem_str m s2)
+    by (intros x Hx; apply H; now right).
+  pose proof (H c (or_introl eq_refl)) as Hc.
+  destruct (c_type c) as [st|vl|np ns|cl|cu|en v]; try (now apply IH).
+  cbn [enum_name] in Hc. rewrite <- (Hc en eq_refl).
+  destruct (ev_is_integer v || mem_str en s1)%bool; [now apply IH|].
+  f_equal. apply IH. intros x Hx m Hm. cbn [mem_str existsb]. f_equal. now apply (Hr x Hx).
+Qed.
+
+Lemma filter_no_other cn : forall (cols : list column_def),
+  existsb (fun x => String.eqb (c_name x) cn) cols = false ->
+  filter (fun c => negb (String.eqb (c_name c) cn)) cols = cols.
+Proof.
+  induction cols as [|c r IH]; intro H; [reflexivity|]. cbn [existsb] in H. apply orb_false_iff in H. destruct H as [H1 H2].
+  cbn [filter]. rewrite H1. cbn [negb]. f_equal. now apply IH.
+Qed.
+
+Lemma enums_remove_col tn cn en vals : ev_is_integer vals = false ->
+  forall cols seen,
+  nodup_str (map c_name cols) = true -> mem_str en seen = false ->
+  (exists c0, In c0 cols /\ c_name c0 = cn /\ c_type c0 = TEnum en vals) ->
+  (forall x, In x cols -> String.eqb (c_name x) cn = false -> has_enum_name en x = false) ->
+  Permutation (enums_of_cols tn cols seen)
+              ((build_enum_type_name tn en, enum_sql_values vals)
+               :: enums_of_cols tn (filter (fun c => negb (String.eqb (c_name c) cn)) cols) seen).
+Proof.
+  intros Hi. induction cols as [|c r IH]; intros seen Hnd Hs (c0 & Hin & Hn & Ht) Hoth; [destruct Hin|].
+  cbn [map] in Hnd. apply nodup_str_cons in Hnd. destruct Hnd as [Hc Hr].
+  cbn [filter]. destruct (String.eqb (c_name c) cn) eqn:E; cbn [negb].
+  - (* the column that goes *)
+    apply String.eqb_eq in E.
+    assert (c0 = c).
+    { destruct Hin as [<-|Hin]; [reflexivity|]. exfalso. unfold mem_str in Hc.
+      assert (existsb (String.eqb (c_name c)) (map c_name r) = true); [|congruence].
+      apply existsb_exists. exists (c_name c0). split; [now apply in_map|]. rewrite Hn, E. apply String.eqb_refl. }
+    subst c0. cbn [enums_of_cols]. rewrite Ht, Hi, Hs. cbn [orb].
+    assert (Hno : existsb (fun x => String.eqb (c_name x) cn) r = false).
+    { unfold mem_str in Hc. rewrite <- E. rewrite existsb_map in Hc. rewrite <- Hc. apply existsb_ext_in.
+      intros x _. apply BtP.str_eqb_sym. }
+    rewrite (filter_no_other cn r Hno).
+    rewrite (enums_seen_ext tn r (en :: seen) seen); [apply Permutation_refl|].
+    intros x Hx m Hm. cbn [mem_str existsb].
+    assert (Hxn : String.eqb (c_name x) cn = false).
+    { destruct (String.eqb (c_name x) cn) eqn:Ex; [|reflexivity]. exfalso.
+      assert (existsb (fun x => String.eqb (c_name x) cn) r = true); [|congruence]. apply existsb_exists. eauto. }
+    pose proof (Hoth x (or_intror Hx) Hxn) as Hh. unfold has_enum_name in Hh. rewrite Hm in Hh. now rewrite Hh.
+  - (* a column that stays *)
+    assert (Hin' : exists c0, In c0 r /\ c_name c0 = cn /\ c_type c0 = TEnum en vals).
+    { exists c0. destruct Hin as [<-|Hin]; [|repeat split; assumption]. rewrite Hn, String.eqb_refl in E. discriminate. }
+    assert (Hoth' : forall x, In x r -> String.eqb (c_name x) cn = false -> has_enum_name en x = false)
+      by (intros; apply Hoth; [now right|assumption]).
+    pose proof (Hoth c (or_introl eq_refl) E) as Hce. unfold has_enum_name in Hce.
+    cbn [enums_of_cols]. destruct (c_type c) as [st|vl|np ns|cl|cu|e v]; try (now apply IH).
+    cbn [enum_name] in Hce.
+    destruct (ev_is_integer v || mem_str e seen)%bool; [now apply IH|].
+    eapply Permutation_trans; [apply perm_skip, (IH (e :: seen) Hr)|apply perm_swap]; try assumption.
+    cbn [mem_str existsb]. now rewrite BtP.str_eqb_sym, Hce.
+Qed.
+
+Theorem sim_pg_delete_column_enum s tn cn : hyp_delete_column_enum s tn cn = true -> step_sim s (DeleteColumn tn cn).
+Proof.
+  unfold hyp_delete_column_enum. intro H.
+  apply andb_prop in H. destruct H as [H Ht]. apply andb_prop in H. destruct H as [Hnd Hfk].
+  destruct (find (fun x => String.eqb (t_name x) tn) s) as [t|] eqn:Hf; [|discriminate].
+  repeat (apply andb_prop in Ht; destruct Ht as [Ht ?]).
+  rename Ht into Hhas, H into Havoid, H0 into Hcnd, H1 into Hen.
+  destruct (find (fun c => String.eqb (c_name c) cn) (t_columns t)) as [c0|] eqn:Hc0; [|discriminate].
+  destruct (c_type c0) as [st|vl|np ns|cl|cu|en vals] eqn:Ety; try discriminate.
+  cbv zeta in Hen. repeat (apply andb_prop in Hen; destruct Hen as [Hen ?]).
+  rename Hen into Hstr, H into Hunused, H0 into Hend, H1 into Hshared.
+  apply negb_true_iff in Hstr, Hshared, Hunused.
+  pose proof (find_name _ _ _ Hf) as Hname.
+  set (N := build_enum_type_name tn en) in *. set (L := enum_sql_values vals).
+  destruct (del_core s tn cn t (enums_of s) Hnd Hfk Hf Hhas Havoid) as (s' & A & C & Hap & Hex & Hd1 & Hd2).
+  rewrite (step_schema_ok s _ s' Hap) in Hunused.
+  (* the table's enum list loses exactly (N, L) *)
+  apply find_some in Hc0. destruct Hc0 as [Hc0in Hc0n]. apply String.eqb_eq in Hc0n.
+  set (X' := table_enums (mkTable (t_name t) (t_description t)
+                                  (filter (fun c => negb (String.eqb (c_name c) cn)) (t_columns t))
+                                  (drop_column_from_constraints cn (t_constraints t)))) in *.
+  assert (Hperm : Permutation (table_enums t) ((N, L) :: X')).
+  { unfold X', table_enums. cbn [t_name t_columns]. rewrite Hname.
+    apply (enums_remove_col tn cn en vals Hstr); [exact Hcnd|reflexivity|eauto|].
+    intros x Hx Exn. unfold other_col_with_enum, table_cols, table_named in Hshared. rewrite Hf in Hshared.
+    destruct (has_enum_name en x) eqn:Eh; [|reflexivity]. exfalso.
+    assert (existsb (fun y => (negb (String.eqb (c_name y) cn)
+                               && match enum_name (c_type y) with Some m => String.eqb m en | None => false end)%bool)
+                    (t_columns t) = true); [|congruence].
+    apply existsb_exists. exists x. split; [exact Hx|]. rewrite Exn. exact Eh. }
+  assert (Hnd_e : NoDup (map fst (A ++ table_enums t ++ C))) by (rewrite <- Hd1; now apply nodup_str_NoDup).
+  assert (Hafter : catalog_of s' = cat_with s' (bt_remove N (enums_of s))).
+  { rewrite catalog_of_cat_with. f_equal. unfold enums_of. rewrite Hd2, Hd1. symmetry.
+    exact (enums_remove_perm A _ _ C (N, L) Hnd_e Hperm). }
+  assert (Hhasenum : find_enum N (cat_with s' (enums_of s)) = Some L).
+  { unfold find_enum, cat_with. cbn [c_enums]. unfold enums_of. rewrite Hd1.
+    assert (Hp2 : Permutation (A ++ table_enums t ++ C) ((N, L) :: A ++ X' ++ C)).
+    { eapply Permutation_trans; [apply Permutation_app_head, Permutation_app_tail, Hperm|].
+      cbn [app]. apply Permutation_sym, Permutation_middle. }
+    rewrite (bt_perm _ _ Hnd_e Hp2). apply bt_sorted_get; [apply bt_of_list_sorted|].
+    assert (Hnd2 : NoDup (map fst ((N, L) :: A ++ X' ++ C))) by (eapply Permutation_NoDup; [apply Permutation_map, Hp2|exact Hnd_e]).
+    pose proof (bt_of_list_perm _ Hnd2) as Hp3. eapply Permutation_in; [apply Permutation_sym, Hp3|]. now left. }
+  unfold step_sim. rewrite (step_schema_ok s _ s' Hap). rewrite Hafter.
+  exists [SAlterTable tn [ADropColumn cn]; SDropType N]. split.
+  - cbn [gen]. unfold gen_delete_column, find_column_s, find_table_s. rewrite Hf.
+    assert (Hfc : find (fun x => String.eqb (c_name x) cn) (t_columns t) = Some c0).
+    { clear -Hc0in Hc0n Hcnd. induction (t_columns t) as [|y r IH]; [destruct Hc0in|].
+      cbn [map] in Hcnd. apply nodup_str_cons in Hcnd. destruct Hcnd as [Hy Hr]. cbn [find].
+      destruct Hc0in as [->|Hin]; [now rewrite Hc0n, String.eqb_refl|].
+      destruct (String.eqb (c_name y) cn) eqn:E; [|now apply IH]. exfalso. apply String.eqb_eq in E.
+      unfold mem_str in Hy. assert (existsb (String.eqb (c_name y)) (map c_name r) = true); [|congruence].
+      apply existsb_exists. exists (c_name c0). split; [now apply in_map|]. rewrite E, Hc0n. apply String.eqb_refl. }
+    rewrite Hfc, Ety. reflexivity.
+  - eapply exec_all_cons_ok; [rewrite catalog_of_cat_with; exact Hex|].
+    cbn [exec_all exec]. rewrite Hhasenum. unfold cat_with at 1. cbn [c_tables].
+    change (c_tables (catalog_of s')) with (map table_cat s') in Hunused. rewrite Hunused. reflexivity.
+Qed.
+
+(* ---------- sorted-map algebra for the enum map ---------- *)
+Lemma bt_remove_insert_ne {V} a b (v : V) m : bt_sorted m -> a <> b ->
+  bt_remove a (bt_insert b v m) = bt_insert b v (bt_remove a m).
+Proof.
+  intros Hs Hab. apply bt_ext.
+  - apply filter_sorted, bt_insert_sorted, Hs.
+  - apply bt_insert_sorted, filter_sorted, Hs.
+  - intro k. unfold bt_remove. rewrite bt_get_filter_key, !bt_get_insert, bt_get_filter_key.
+    destruct (String.eqb k a) eqn:E1; destruct (String.eqb k b) eqn:E2; try reflexivity.
+    apply String.eqb_eq in E1, E2. congruence.
+Qed.
+Lemma bt_remove_insert_same {V} k (v : V) m : bt_sorted m -> bt_mem k m = false -> bt_remove k (bt_insert k v m) = m.
+Proof.
+  intros Hs Hm. apply bt_ext; [apply filter_sorted, bt_insert_sorted, Hs|exact Hs|].
+  intro k'. unfold bt_remove. rewrite bt_get_filter_key, bt_get_insert.
+  destruct (String.eqb k' k) eqn:E; [|reflexivity]. apply String.eqb_eq in E. subst k'.
+  unfold bt_mem in Hm. destruct (bt_get k m); [discriminate|reflexivity].
+Qed.
+Lemma bt_remove_comm {V} a b (m : list (string * V)) : bt_remove a (bt_remove b m) = bt_remove b (bt_remove a m).
+Proof.
+  unfold bt_remove. induction m as [|x r IH]; [reflexivity|]. cbn [filter].
+  destruct (negb (String.eqb (fst x) b)) eqn:E1; destruct (negb (String.eqb (fst x) a)) eqn:E2;
+    cbn [filter]; rewrite ?E1, ?E2, IH; reflexivity.
+Qed.
+Lemma bt_mem_remove {V} k a (m : list (string * V)) :
+  bt_mem k (bt_remove a m) = (negb (String.eqb k a) && bt_mem k m)%bool.
+Proof. unfold bt_mem, bt_remove. rewrite bt_get_filter_key. now destruct (String.eqb k a). Qed.
+
+Lemma enums_new_insert (A Y X' C : list (string * list string)) e :
+  NoDup (map fst (A ++ Y ++ C)) -> bt_mem (fst e) (bt_of_list (A ++ Y ++ C)) = false -> Permutation X' (e :: Y) ->
+  bt_of_list (A ++ X' ++ C) = bt_insert (fst e) (snd e) (bt_of_list (A ++ Y ++ C)).
+Proof.
+  intros Hnd Hm Hp. apply enums_insert_perm; [|exact Hp].
+  apply (Permutation_NoDup (l := map fst (e :: A ++ Y ++ C))).
+  - apply Permutation_map. apply Permutation_sym.
+    eapply Permutation_trans; [apply Permutation_app_head, Permutation_app_tail, Hp|].
+    cbn [app]. apply Permutation_sym, Permutation_middle.
+  - cbn [map]. constructor; [|exact Hnd]. rewrite bt_mem_of_list_keys in Hm. intro Hin.
+    apply mem_str_In in Hin. congruence.
+Qed.
+
+Lemma enums_old_remove (A X Y C : list (string * list string)) e :
+  NoDup (map fst (A ++ X ++ C)) -> Permutation X (e :: Y) ->
+  bt_remove (fst e) (bt_of_list (A ++ X ++ C)) = bt_of_list (A ++ Y ++ C)
+  /\ NoDup (map fst (A ++ Y ++ C))
+  /\ bt_get (fst e) (bt_of_list (A ++ X ++ C)) = Some (snd e).
+Proof.
+  intros Hnd Hp.
+  assert (Hp2 : Permutation (A ++ X ++ C) (e :: A ++ Y ++ C)).
+  { eapply Permutation_trans; [apply Permutation_app_head, Permutation_app_tail, Hp|].
+    cbn [app]. apply Permutation_sym, Permutation_middle. }
+  assert (Hnd2 : NoDup (map fst (e :: A ++ Y ++ C))) by (eapply Permutation_NoDup; [apply Permutation_map, Hp2|exact Hnd]).
+  split; [exact (enums_remove_perm A X Y C e Hnd Hp)|]. split.
+  - cbn [map] in Hnd2. now inversion Hnd2.
+  - rewrite (bt_perm _ _ Hnd Hp2). apply bt_sorted_get; [apply bt_of_list_sorted|].
+    pose proof (bt_of_list_perm _ Hnd2) as Hp3. eapply Permutation_in; [apply Permutation_sym, Hp3|].
+    destruct e. now left.
+Qed.
+
+(* ---------- the enum list of a table when the type of one column changes ---------- *)
+Lemma enums_filter_plain tn cn : forall cols seen,
+  (forall x, In x cols -> String.eqb (c_name x) cn = true -> is_enum_type (c_type x) = false) ->
+  enums_of_cols tn cols seen = enums_of_cols tn (filter (fun c => negb (String.eqb (c_name c) cn)) cols) seen.
+Proof.
+  induction cols as [|c r IH]; intros seen H; [reflexivity|].
+  assert (Hr : forall x, In x r -> String.eqb (c_name x) cn = true -> is_enum_type (c_type x) = false)
+    by (intros; apply H; [now right|assumption]).
+  cbn [filter]. destruct (String.eqb (c_name c) cn) eqn:E; cbn [negb].
+  - pose proof (H c (or_introl eq_refl) E) as Hp. cbn [enums_of_cols].
+    destruct (c_type c); try discriminate; now apply IH.
+  - cbn [enums_of_cols]. destruct (c_type c); try (now apply IH).
+    destruct (ev_is_integer values || mem_str name seen)%bool; [now apply IH|]. f_equal. now apply IH.
+Qed.
+
+Lemma update_first_col_filter cn f : (forall x, c_name (f x) = c_name x) -> forall cols cols',
+  update_first_col cn f cols = Some cols' ->
+  filter (fun c => negb (String.eqb (c_name c) cn)) cols' = filter (fun c => negb (String.eqb (c_name c) cn)) cols.
+Proof.
+  intros Hn. induction cols as [|c r IH]; intros cols' Hu; [discriminate|].
+  cbn [update_first_col] in Hu. destruct (String.eqb (c_name c) cn) eqn:E.
+  - injection Hu as <-. cbn [filter]. now rewrite Hn, E.
+  - destruct (update_first_col cn f r) as [r'|]; [|discriminate]. injection Hu as <-.
+    cbn [filter]. rewrite E. cbn [negb]. f_equal. now apply IH.
+Qed.
+
+Lemma update_first_col_in cn f : (forall x, c_name (f x) = c_name x) -> forall cols cols' c,
+  find (fun x => String.eqb (c_name x) cn) cols = Some c -> update_first_col cn f cols = Some cols' ->
+  In (f c) cols' /\ (forall x, In x cols' -> String.eqb (c_name x) cn = false -> In x cols).
+Proof.
+  intros Hn. induction cols as [|y r IH]; intros cols' c Hf Hu; [discriminate|].
+  cbn [update_first_col] in Hu. cbn [find] in Hf. destruct (String.eqb (c_name y) cn) eqn:E.
+  - injection Hu as <-. injection Hf as <-. split; [now left|].
+    intros x [<-|Hx] Hne; [rewrite Hn, E in Hne; discriminate|now right].
+  - destruct (update_first_col cn f r) as [r'|] eqn:Er; [|discriminate]. injection Hu as <-.
+    destruct (IH r' c Hf eq_refl) as [H1 H2]. split; [now right|].
+    intros x [<-|Hx] Hne; [now left|right; now apply H2].
+Qed.
+
+Lemma other_col_spec s tn cn en t : find (fun x => String.eqb (t_name x) tn) s = Some t ->
+  other_col_with_enum s tn cn en = false ->
+  forall x, In x (t_columns t) -> String.eqb (c_name x) cn = false -> has_enum_name en x = false.
+Proof.
+  intros Hf Hshared x Hx Exn. unfold other_col_with_enum, table_cols, table_named in Hshared. rewrite Hf in Hshared.
+  destruct (has_enum_name en x) eqn:Eh; [|reflexivity]. exfalso.
+  assert (existsb (fun y => (negb (String.eqb (c_name y) cn)
+                             && match enum_name (c_type y) with Some m => String.eqb m en | None => false end)%bool)
+                  (t_columns t) = true); [|congruence].
+  apply existsb_exists. exists x. split; [exact Hx|]. rewrite Exn. exact Eh.
+Qed.
+
+(* ---------- one column of one table being rewritten, over an arbitrary enum map ---------- *)
+Definition colcat (s : schema) (t : table_def) (tn cn : string) (x : pg_col) (E : list (string * list string)) : catalog :=
+  replace_table (update_col (table_cat t) cn (fun _ => x)) tn (cat_with s E).
+
+Lemma find_upd cn (x : pg_col) : forall cols, existsb (fun y => String.eqb (pc_name y) cn) cols = true -> pc_name x = cn ->
+  find (fun y => String.eqb (pc_name y) cn) (map (fun y => if String.eqb (pc_name y) cn then x else y) cols) = Some x.
+Proof.
+  induction cols as [|y r IH]; intros H Hx; [discriminate|]. cbn [existsb map find] in *.
+  destruct (String.eqb (pc_name y) cn) eqn:E.
+  - now rewrite Hx, String.eqb_refl.
+  - rewrite E. cbn [orb] in H. now apply IH.
+Qed.
+
+Lemma upd_upd cn (x x' : pg_col) T : pc_name x = cn ->
+  update_col (update_col T cn (fun _ => x)) cn (fun _ => x') = update_col T cn (fun _ => x').
+Proof.
+  intro Hx. unfold update_col. cbn [pt_name pt_cols pt_cons pt_idx]. f_equal. rewrite map_map. apply map_ext.
+  intro y. destruct (String.eqb (pc_name y) cn) eqn:E; [now rewrite Hx, String.eqb_refl|now rewrite E].
+Qed.
+
+Lemma replace_same tn t E : forall s, nodup_str (map t_name s) = true ->
+  find (fun x => String.eqb (t_name x) tn) s = Some t ->
+  replace_table (table_cat t) tn (cat_with s E) = cat_with s E.
+Proof.
+  intros s Hnd Hf. unfold replace_table, map_table, set_tables, cat_with. cbn [c_tables c_enums]. f_equal.
+  induction s as [|x r IH]; [reflexivity|]. cbn [map] in Hnd. apply nodup_str_cons in Hnd. destruct Hnd as [Hx Hr].
+  cbn [find] in Hf. cbn [map]. rewrite pt_name_table_cat. destruct (String.eqb (t_name x) tn) eqn:E0.
+  - injection Hf as ->. f_equal. apply String.eqb_eq in E0. subst tn. apply replace_others. now apply mem_str_map_name.
+  - f_equal. now apply IH.
+Qed.
+
+Section ColCat.
+Variables (s : schema) (tn cn : string) (t : table_def) (c : column_def).
+Hypothesis Hnd : nodup_str (map t_name s) = true.
+Hypothesis Hf : find (fun x => String.eqb (t_name x) tn) s = Some t.
+Hypothesis Hc : find (fun x => String.eqb (c_name x) cn) (t_columns t) = Some c.
+Hypothesis Hcnd : nodup_str (map c_name (t_columns t)) = true.
+
+Lemma upd_name x : pt_name (update_col (table_cat t) cn (fun _ => x)) = tn.
+Proof. unfold update_col. cbn [pt_name]. apply (find_name _ _ _ Hf). Qed.
+
+Lemma base_find E : find_table tn (cat_with s E) = Some (table_cat t).
+Proof. rewrite find_table_cat_with, Hf. reflexivity. Qed.
+
+Lemma colcat_find x E : find_table tn (colcat s t tn cn x E) = Some (update_col (table_cat t) cn (fun _ => x)).
+Proof. unfold colcat. apply (find_replace tn _ (table_cat t)); [apply base_find|apply upd_name]. Qed.
+
+Lemma colcat_find_col x : pc_name x = cn -> find_col cn (update_col (table_cat t) cn (fun _ => x)) = Some x.
+Proof.
+  intro Hx. unfold find_col, update_col. cbn [pt_cols]. apply find_upd; [|exact Hx].
+  change (has_col cn (table_cat t) = true). rewrite has_col_table_cat. eapply has_column_find; eauto.
+Qed.
+
+Lemma colcat_type_exists n x E : type_exists n (colcat s t tn cn x E) = (bt_mem n E || has_table n s)%bool.
+Proof.
+  unfold colcat. rewrite (type_exists_replace n tn _ (table_cat t)); [apply type_exists_cat_with|apply base_find|apply upd_name].
+Qed.
+
+Lemma colcat_resolve x E ty : resolve_type (colcat s t tn cn x E) ty = resolve_type (cat_with s E) ty.
+Proof. unfold colcat. apply (resolve_replace tn _ (table_cat t)); [apply base_find|apply upd_name]. Qed.
+
+Lemma colcat_id E : colcat s t tn cn (col_cat t c) E = cat_with s E.
+Proof.
+  unfold colcat.
+  assert (H : update_col (table_cat t) cn (fun _ => col_cat t c) = table_cat t).
+  { rewrite (update_col_const (table_cat t) cn (fun y => y) (col_cat t c)).
+    - unfold update_col. destruct (table_cat t) as [n cols cons idx]. cbn [pt_name pt_cols pt_cons pt_idx]. f_equal.
+      rewrite <- (map_id cols) at 2. apply map_ext. intro y. now destruct (String.eqb (pc_name y) cn).
+    - now rewrite pt_cols_names.
+    - now apply find_col_table_cat. }
+  rewrite H. now apply replace_same.
+Qed.
+
+Lemma colcat_step x x' E op : pc_name x = cn ->
+  (forall T cat, find_table tn cat = Some T -> find_col cn T = Some x -> cat = colcat s t tn cn x E ->
+     exec_alter_op cat tn op = Ok (replace_table (update_col T cn (fun _ => x')) tn cat, tn)) ->
+  exec (colcat s t tn cn x E) (SAlterTable tn [op]) = Ok (colcat s t tn cn x' E).
+Proof.
+  intros Hx Hop. cbn [exec]. rewrite colcat_find. cbn [exec_alter_ops].
+  rewrite (Hop _ _ (colcat_find x E) (colcat_find_col x Hx) eq_refl).
+  f_equal. rewrite upd_upd by exact Hx. unfold colcat. apply replace_replace. apply upd_name.
+Qed.
+
+Lemma colcat_create_type x E N L : labels_ok L = true -> bt_mem N E = false -> has_table N s = false ->
+  exec (colcat s t tn cn x E) (SCreateType N L) = Ok (colcat s t tn cn x (bt_insert N L E)).
+Proof.
+  intros HL Hm Ht. unfold labels_ok in HL. apply andb_prop in HL. destruct HL as [H1 H2].
+  cbn [exec]. rewrite H1, colcat_type_exists, Hm, Ht. cbn [negb orb].
+  destruct (first_dup L); [discriminate|]. reflexivity.
+Qed.
+
+Lemma colcat_tables_absent n x E : type_free (catalog_of s) tn cn n = true -> String.eqb (pc_type x) n = false ->
+  existsb (fun T => existsb (fun y => String.eqb (pc_type y) n) (pt_cols T)) (c_tables (colcat s t tn cn x E)) = false.
+Proof.
+  intros Hfree Hx. apply not_true_is_false. intro H. apply existsb_exists in H. destruct H as (T & HT & HTx).
+  unfold type_free in Hfree. rewrite forallb_forall in Hfree.
+  change (c_tables (colcat s t tn cn x E))
+    with (map (fun y => if String.eqb (pt_name y) tn then update_col (table_cat t) cn (fun _ => x) else y) (map table_cat s)) in HT.
+  apply in_map_iff in HT. destruct HT as (y & Hy & Hin).
+  apply existsb_exists in HTx. destruct HTx as (z & Hz & Hzt).
+  destruct (String.eqb (pt_name y) tn) eqn:E0.
+  - subst T. unfold update_col in Hz. cbn [pt_cols] in Hz. apply in_map_iff in Hz. destruct Hz as (w & Hw & Hwin).
+    destruct (String.eqb (pc_name w) cn) eqn:E1; [subst z; congruence|]. subst z.
+    assert (Hint : In (table_cat t) (c_tables (catalog_of s))).
+    { cbn [catalog_of c_tables]. apply in_map. apply find_some in Hf. apply Hf. }
+    pose proof (Hfree _ Hint) as H1. rewrite forallb_forall in H1. pose proof (H1 _ Hwin) as H2.
+    rewrite E1, Hzt, andb_false_r in H2. discriminate.
+  - subst T. pose proof (Hfree y Hin) as H1. rewrite forallb_forall in H1. pose proof (H1 _ Hz) as H2.
+    rewrite E0, Hzt in H2. discriminate.
+Qed.
+
+Lemma colcat_drop_type n L x E : type_free (catalog_of s) tn cn n = true -> String.eqb (pc_type x) n = false ->
+  bt_get n E = Some L ->
+  exec (colcat s t tn cn x E) (SDropType n) = Ok (colcat s t tn cn x (bt_remove n E)).
+Proof.
+  intros Hfree Hx Hg. cbn [exec]. unfold find_enum. change (c_enums (colcat s t tn cn x E)) with E. rewrite Hg.
+  now rewrite (colcat_tables_absent n x E Hfree Hx).
+Qed.
+
+Lemma colcat_rename_type a b L x E : type_free (catalog_of s) tn cn a = true -> pc_type x = a -> pc_name x = cn ->
+  bt_get a E = Some L -> bt_mem b E = false -> has_table b s = false ->
+  exec (colcat s t tn cn x E) (SRenameType a b)
+  = Ok (colcat s t tn cn (mkPc (pc_name x) b (pc_notnull x) (pc_default x) (pc_autoinc x)) (bt_insert b L (bt_remove a E))).
+Proof.
+  intros Hfree Hxt Hxn Hg Hm Ht. cbn [exec]. unfold find_enum. change (c_enums (colcat s t tn cn x E)) with E. rewrite Hg.
+  rewrite colcat_type_exists, Hm, Ht. cbn [orb]. f_equal.
+  unfold colcat, replace_table, map_table, set_tables, cat_with. cbn [c_tables c_enums]. f_equal.
+  rewrite !map_map. apply map_ext_in. intros y Hy.
+  unfold type_free in Hfree. rewrite forallb_forall in Hfree.
+  rewrite pt_name_table_cat. destruct (String.eqb (t_name y) tn) eqn:E0.
+  - unfold retype_cols, update_col. cbn [pt_name pt_cols pt_cons pt_idx]. f_equal.
+    rewrite map_map. apply map_ext_in. intros w Hw. destruct (String.eqb (pc_name w) cn) eqn:E1.
+    + now rewrite Hxt, String.eqb_refl.
+    + assert (Hint : In (table_cat t) (c_tables (catalog_of s))).
+      { cbn [catalog_of c_tables]. apply in_map. apply find_some in Hf. apply Hf. }
+      pose proof (Hfree _ Hint) as H1. rewrite forallb_forall in H1. pose proof (H1 _ Hw) as H2.
+      rewrite E1, andb_false_r in H2. cbn [orb] in H2. apply negb_true_iff in H2. now rewrite H2.
+  - assert (Hint : In (table_cat y) (c_tables (catalog_of s))) by (cbn [catalog_of c_tables]; now apply in_map).
+    pose proof (Hfree _ Hint) as H1. rewrite forallb_forall in H1.
+    unfold retype_cols. destruct (table_cat y) as [n cols cons idx] eqn:Ey. cbn [pt_name pt_cols pt_cons pt_idx] in *. f_equal.
+    rewrite <- (map_id cols) at 2. apply map_ext_in. intros w Hw. pose proof (H1 _ Hw) as H2.
+    assert (Hn : n = t_name y) by (pose proof (pt_name_table_cat y) as Hp; rewrite Ey in Hp; exact Hp).
+    rewrite Hn, E0 in H2. cbn [andb orb] in H2. apply negb_true_iff in H2. now rewrite H2.
+Qed.
+
+Lemma colcat_alter_type x E ty usng r : pc_name x = cn -> resolve_type (cat_with s E) ty = Ok (r, false) ->
+  exec (colcat s t tn cn x E) (SAlterTable tn [AAlterType cn ty usng])
+  = Ok (colcat s t tn cn (mkPc (pc_name x) r (pc_notnull x) (pc_default x) (pc_autoinc x || false)) E).
+Proof.
+  intros Hx Hr. apply colcat_step; [exact Hx|]. intros T cat HT Hcol ->.
+  unfold exec_alter_op. rewrite HT, Hcol, colcat_resolve, Hr. reflexivity.
+Qed.
+Lemma colcat_drop_default x E : pc_name x = cn ->
+  exec (colcat s t tn cn x E) (SAlterTable tn [ADropDefault cn])
+  = Ok (colcat s t tn cn (mkPc (pc_name x) (pc_type x) (pc_notnull x) None false) E).
+Proof.
+  intros Hx. apply colcat_step; [exact Hx|]. intros T cat HT Hcol ->.
+  unfold exec_alter_op. rewrite HT, Hcol. reflexivity.
+Qed.
+Lemma colcat_set_default x E e : pc_name x = cn -> String.eqb (trim e) "" = false ->
+  exec (colcat s t tn cn x E) (SAlterTable tn [ASetDefault cn e])
+  = Ok (colcat s t tn cn (mkPc (pc_name x) (pc_type x) (pc_notnull x) (Some e) (pc_autoinc x)) E).
+Proof.
+  intros Hx He. apply colcat_step; [exact Hx|]. intros T cat HT Hcol ->.
+  unfold exec_alter_op. rewrite HT, He, Hcol. reflexivity.
+Qed.
+Lemma resolve_quoted E n : bt_mem n E = true -> resolve_type (cat_with s E) (mkTy n true) = Ok (n, false).
+Proof. intro H. unfold resolve_type. cbn [ty_quoted ty_text]. now rewrite type_exists_cat_with, H. Qed.
+End ColCat.
+
+(* ---------- ModifyColumnType: the schema side and the enum list of the table ---------- *)
+Lemma in_unique_name : forall (l : list column_def) x y, nodup_str (map c_name l) = true ->
+  In x l -> In y l -> c_name x = c_name y -> x = y.
+Proof.
+  induction l as [|z r IH]; intros x y Hnd Hx Hy Hn; [destruct Hx|].
+  cbn [map] in Hnd. apply nodup_str_cons in Hnd. destruct Hnd as [Hz Hr].
+  assert (Hno : forall w, In w r -> c_name w <> c_name z).
+  { intros w Hw Heq. unfold mem_str in Hz. assert (existsb (String.eqb (c_name z)) (map c_name r) = true); [|congruence].
+    apply existsb_exists. exists (c_name w). split; [now apply in_map|]. rewrite Heq. apply String.eqb_refl. }
+  destruct Hx as [<-|Hx]; destruct Hy as [<-|Hy]; [reflexivity| | |now apply IH].
+  - exfalso. apply (Hno y Hy). now symmetry.
+  - exfalso. now apply (Hno x Hx).
+Qed.
+
+Definition mod_ctx (s : schema) (tn cn : string) (t : table_def) (c : column_def) (ty : column_type)
+  (s' : schema) (cols' : list column_def) (A C : list (string * list string)) : Prop :=
+  nodup_str (map t_name s) = true /\
+  find (fun x => String.eqb (t_name x) tn) s = Some t /\
+  find (fun x => String.eqb (c_name x) cn) (t_columns t) = Some c /\
+  nodup_str (map c_name (t_columns t)) = true /\
+  update_first_col cn (set_type ty) (t_columns t) = Some cols' /\
+  update_table tn (update_column tn cn (set_type ty)) s = Ok s' /\
+  (forall E, cat_with s' E = colcat s t tn cn (col_cat t (set_type ty c)) E) /\
+  flat_map table_enums s = A ++ table_enums t ++ C /\
+  flat_map table_enums s' = A ++ enums_of_cols tn cols' [] ++ C.
+
+Lemma mod_core s tn cn t c ty :
+  nodup_str (map t_name s) = true ->
+  find (fun x => String.eqb (t_name x) tn) s = Some t ->
+  find (fun x => String.eqb (c_name x) cn) (t_columns t) = Some c ->
+  nodup_str (map c_name (t_columns t)) = true ->
+  exists s' cols' A C, mod_ctx s tn cn t c ty s' cols' A C.
+Proof.
+  intros Hnd Hf Hc Hcnd.
+  assert (Hhas : existsb (fun x => String.eqb (c_name x) cn) (t_columns t) = true).
+  { apply existsb_exists. apply find_some in Hc. destruct Hc as [Hin E]. eauto. }
+  destruct (update_first_col_some cn (set_type ty) (t_columns t) Hhas) as [cols' Hu].
+  set (t' := mkTable (t_name t) (t_description t) cols' (t_constraints t)).
+  assert (Hft : update_column tn cn (set_type ty) t = Ok t') by (unfold update_column; now rewrite Hu).
+  destruct (update_table_decomp tn _ s t t' Hnd Hf Hft eq_refl) as (s' & A & C & Hup & Hmap & H1 & H2).
+  exists s', cols', A, C. unfold mod_ctx. repeat split; try assumption.
+  - intro E. unfold colcat. apply cat_with_replace. rewrite Hmap.
+    assert (HT : table_cat t' = update_col (table_cat t) cn (fun _ => col_cat t (set_type ty c))).
+    { unfold update_col, table_cat, t'. cbn [t_name t_columns t_constraints pt_name pt_cols pt_cons pt_idx]. f_equal.
+      rewrite (map_ext _ (col_cat t)) by (apply col_cat_ext; reflexivity).
+      apply (update_first_col_cat (col_cat t) (fun _ => col_cat t (set_type ty c)) cn (set_type ty));
+        [reflexivity| |exact Hcnd|exact Hu].
+      intros x Hx Ex. now rewrite (find_col_unique cn _ c Hcnd Hc x Hx Ex). }
+    now rewrite HT.
+  - rewrite H2. unfold table_enums, t'. cbn [t_name t_columns]. now rewrite (find_name _ _ _ Hf).
+Qed.
+
+Section ModLists.
+Variables (s : schema) (tn cn : string) (t : table_def) (c : column_def) (ty : column_type)
+          (s' : schema) (cols' : list column_def) (A C : list (string * list string)).
+Hypothesis Hctx : mod_ctx s tn cn t c ty s' cols' A C.
+Let Y := enums_of_cols tn (filter (fun x => negb (String.eqb (c_name x) cn)) (t_columns t)) [].
+
+Lemma old_plain : is_enum_type (c_type c) = false -> table_enums t = Y.
+Proof.
+  destruct Hctx as (Hnd & Hf & Hc & Hcnd & _). intro Hp.
+  unfold table_enums, Y. rewrite (find_name _ _ _ Hf). apply enums_filter_plain.
+  intros x Hx Ex. now rewrite (find_col_unique cn _ c Hcnd Hc x Hx Ex).
+Qed.
+
+Lemma old_enum on ov : c_type c = TEnum on ov -> ev_is_integer ov = false -> other_col_with_enum s tn cn on = false ->
+  Permutation (table_enums t) ((build_enum_type_name tn on, enum_sql_values ov) :: Y).
+Proof.
+  destruct Hctx as (Hnd & Hf & Hc & Hcnd & _). intros Ht Hi Ho.
+  unfold table_enums, Y. rewrite (find_name _ _ _ Hf).
+  apply (enums_remove_col tn cn on ov Hi); [exact Hcnd|reflexivity| |].
+  - apply find_some in Hc. destruct Hc as [Hin En]. apply String.eqb_eq in En. eauto.
+  - now apply (other_col_spec s tn cn on t Hf Ho).
+Qed.
+
+Lemma new_plain : is_enum_type ty = false -> enums_of_cols tn cols' [] = Y.
+Proof.
+  destruct Hctx as (Hnd & Hf & Hc & Hcnd & Hu & _). intro Hp.
+  unfold Y. rewrite <- (update_first_col_filter cn (set_type ty) (fun _ => eq_refl) _ cols' Hu).
+  apply enums_filter_plain. intros x Hx Ex.
+  destruct (update_first_col_in cn (set_type ty) (fun _ => eq_refl) _ cols' c Hc Hu) as [Hin _].
+  assert (Hndc : nodup_str (map c_name cols') = true)
+    by (rewrite (update_first_col_names cn (set_type ty) (fun _ => eq_refl) _ cols' Hu); exact Hcnd).
+  assert (x = set_type ty c).
+  { apply (in_unique_name cols' _ _ Hndc Hx Hin). apply String.eqb_eq in Ex. rewrite Ex. cbn [set_type c_name].
+    apply find_some in Hc. destruct Hc as [_ En]. apply String.eqb_eq in En. now symmetry. }
+  subst x. exact Hp.
+Qed.
+
+Lemma new_enum nn nv : ty = TEnum nn nv -> ev_is_integer nv = false -> other_col_with_enum s tn cn nn = false ->
+  Permutation (enums_of_cols tn cols' []) ((build_enum_type_name tn nn, enum_sql_values nv) :: Y).
+Proof.
+  destruct Hctx as (Hnd & Hf & Hc & Hcnd & Hu & _). intros Ht Hi Ho.
+  unfold Y. rewrite <- (update_first_col_filter cn (set_type ty) (fun _ => eq_refl) _ cols' Hu).
+  destruct (update_first_col_in cn (set_type ty) (fun _ => eq_refl) _ cols' c Hc Hu) as [Hin Hoth].
+  apply (enums_remove_col tn cn nn nv Hi).
+  - rewrite (update_first_col_names cn (set_type ty) (fun _ => eq_refl) _ cols' Hu). exact Hcnd.
+  - reflexivity.
+  - exists (set_type ty c). split; [exact Hin|]. cbn [set_type c_name c_type]. split; [|exact Ht].
+    apply find_some in Hc. destruct Hc as [_ En]. now apply String.eqb_eq in En.
+  - intros x Hx Ex. apply (other_col_spec s tn cn nn t Hf Ho); [now apply Hoth|exact Ex].
+Qed.
+End ModLists.
+
+(* ---------- ModifyColumnType: the four statement sequences ---------- *)
+Lemma gen_shape_to_enum s tn cn c nn nv fw : find_column_s s tn cn = Some c -> is_enum_type (c_type c) = false ->
+  ev_is_integer nv = false ->
+  gen_modify_column_type s tn cn (TEnum nn nv) fw
+  = fill_with_updates tn cn fw
+    ++ [SCreateType (build_enum_type_name tn nn) (enum_sql_values nv);
+        SAlterTable tn [AAlterType cn (sea_type tn (TEnum nn nv)) None]].
+Proof.
+  intros Hfc Hp Hi. unfold gen_modify_column_type. rewrite Hfc. cbn [option_map].
+  destruct (c_type c); try discriminate; cbv iota beta; unfold create_enum_type; rewrite Hi; reflexivity.
+Qed.
+
+Lemma gen_shape_from_enum s tn cn c on ov ty fw : find_column_s s tn cn = Some c -> c_type c = TEnum on ov ->
+  is_enum_type ty = false ->
+  gen_modify_column_type s tn cn ty fw
+  = fill_with_updates tn cn fw
+    ++ [SAlterTable tn [AAlterType cn (sea_type tn ty) None]; SDropType (build_enum_type_name tn on)].
+Proof.
+  intros Hfc Ht Hp. unfold gen_modify_column_type. rewrite Hfc. cbn [option_map]. rewrite Ht.
+  destruct ty; try discriminate; reflexivity.
+Qed.
+
+Definition dd_stmts (tn cn : string) (c : column_def) : list stmt :=
+  match c_default c with Some _ => [SAlterTable tn [ADropDefault cn]] | None => [] end.
+Definition sd_stmts (tn cn : string) (c : column_def) (ty : column_type) : list stmt :=
+  match c_default c with
+  | Some d => [SAlterTable tn [ASetDefault cn (normalize_enum_default ty (default_to_sql d))]]
+  | None => []
+  end.
+
+Lemma gen_shape_other_name s tn cn c on ov nn nv fw : find_column_s s tn cn = Some c -> c_type c = TEnum on ov ->
+  String.eqb on nn = false ->
+  let No := build_enum_type_name tn on in
+  let Nn := build_enum_type_name tn nn in
+  gen_modify_column_type s tn cn (TEnum nn nv) fw
+  = fill_with_updates tn cn fw
+    ++ [SCreateType Nn (enum_sql_values nv)] ++ dd_stmts tn cn c
+    ++ [SAlterTable tn [AAlterType cn (mkTy Nn true) (Some (qid cn +++ "::text::" +++ qid Nn))]]
+    ++ [SDropType No] ++ sd_stmts tn cn c (TEnum nn nv).
+Proof.
+  intros Hfc Ht Hne. unfold gen_modify_column_type, dd_stmts, sd_stmts. rewrite Hfc. cbn [option_map]. rewrite Ht, Hne.
+  cbn [andb negb app]. reflexivity.
+Qed.
+
+Lemma gen_shape_same_name s tn cn c on ov nv fw : find_column_s s tn cn = Some c -> c_type c = TEnum on ov ->
+  dec_b enum_values_eq_dec ov nv = false ->
+  let N := build_enum_type_name tn on in
+  let T := N +++ "_new" in
+  gen_modify_column_type s tn cn (TEnum on nv) fw
+  = fill_with_updates tn cn fw
+    ++ [SCreateType T (enum_sql_values nv)] ++ dd_stmts tn cn c
+    ++ [SAlterTable tn [AAlterType cn (mkTy T true) (Some (qid cn +++ "::text::" +++ qid T))]]
+    ++ [SDropType N] ++ [SRenameType T N] ++ sd_stmts tn cn c (TEnum on nv).
+Proof.
+  intros Hfc Ht Hne. unfold gen_modify_column_type, dd_stmts, sd_stmts. rewrite Hfc. cbn [option_map]. rewrite Ht, Hne.
+  rewrite String.eqb_refl. cbn [andb negb app]. reflexivity.
+Qed.
+
+Lemma exec_all_app_ok c l1 l2 c1 c2 : exec_all c l1 = Ok c1 -> exec_all c1 l2 = Ok c2 -> exec_all c (l1 ++ l2) = Ok c2.
+Proof.
+  revert c. induction l1 as [|st r IH]; intros c H1 H2; cbn [app exec_all] in *.
+  - injection H1 as ->. exact H2.
+  - destruct (exec c st) as [c'|]; [|discriminate].
+    destruct (exec_all c' r) as [c''|[i e]] eqn:Er; [|discriminate]. injection H1 as ->.
+    now rewrite (IH c' Er H2).
+Qed.
+
+Lemma app_mid {A} (l : list A) a r : l ++ a :: r = (l ++ [a]) ++ r.
+Proof. now rewrite <- app_assoc. Qed.
+
+Section ModPaths.
+Variables (s : schema) (tn cn : string) (t : table_def) (c : column_def) (ty : column_type)
+          (fw : option (list (string * string)))
+          (s' : schema) (cols' : list column_def) (A C : list (string * list string)).
+Hypothesis Hctx : mod_ctx s tn cn t c ty s' cols' A C.
+Hypothesis Hend : nodup_str (map fst (flat_map table_enums s)) = true.
+Hypothesis Ha0 : pc_autoinc (col_cat t c) = false.
+Hypothesis Ha1 : pc_autoinc (col_cat t (set_type ty c)) = false.
+Let E := enums_of s.
+Let x0 := col_cat t c.
+Let xf := col_cat t (set_type ty c).
+Let Y := enums_of_cols tn (filter (fun x => negb (String.eqb (c_name x) cn)) (t_columns t)) [].
+Let X := table_enums t.
+Let X' := enums_of_cols tn cols' [].
+
+Lemma mp_f : find (fun x => String.eqb (t_name x) tn) s = Some t. Proof. apply Hctx. Qed.
+Lemma mp_c : find (fun x => String.eqb (c_name x) cn) (t_columns t) = Some c. Proof. apply Hctx. Qed.
+Lemma mp_name : t_name t = tn. Proof. apply (find_name _ _ _ mp_f). Qed.
+Lemma mp_cname : c_name c = cn.
+Proof. pose proof mp_c as H. apply find_some in H. destruct H as [_ H]. now apply String.eqb_eq. Qed.
+Lemma mp_fc : find_column_s s tn cn = Some c.
+Proof. unfold find_column_s, find_table_s. now rewrite mp_f, mp_c. Qed.
+Lemma mp_start : catalog_of s = colcat s t tn cn x0 E.
+Proof.
+  destruct Hctx as (Hnd & Hf & Hc & Hcnd & _). rewrite catalog_of_cat_with. symmetry.
+  apply (colcat_id s tn cn t c Hnd Hf Hc Hcnd).
+Qed.
+Lemma mp_final : catalog_of s' = colcat s t tn cn xf (bt_of_list (A ++ X' ++ C)).
+Proof.
+  destruct Hctx as (_ & _ & _ & _ & _ & _ & Hcw & _ & H2). rewrite catalog_of_cat_with, Hcw.
+  unfold enums_of. now rewrite H2.
+Qed.
+Lemma mp_E : E = bt_of_list (A ++ X ++ C).
+Proof. destruct Hctx as (_ & _ & _ & _ & _ & _ & _ & H1 & _). unfold E, enums_of. now rewrite H1. Qed.
+Lemma mp_nodup : NoDup (map fst (A ++ X ++ C)).
+Proof. destruct Hctx as (_ & _ & _ & _ & _ & _ & _ & H1 & _). unfold X. rewrite <- H1. now apply nodup_str_NoDup. Qed.
+Lemma mp_apply : update_table tn (update_column tn cn (set_type ty)) s = Ok s'. Proof. apply Hctx. Qed.
+Lemma mp_sorted : bt_sorted E. Proof. apply bt_of_list_sorted. Qed.
+
+Lemma mp_fill l c0 : exec_all (catalog_of s) l = Ok c0 ->
+  exec_all (catalog_of s) (fill_with_updates tn cn fw ++ l) = Ok c0.
+Proof.
+  intros Hl. destruct fw as [m|]; [|exact Hl]. unfold fill_with_updates.
+  induction m as [|p r IH]; [exact Hl|]. cbn [map app exec_all].
+  rewrite (exec_update s tn cn t _ _ mp_f (has_column_find _ _ _ mp_c)). now rewrite IH.
+Qed.
+
+Lemma mp_x0n : pc_name x0 = cn. Proof. exact mp_cname. Qed.
+Lemma mp_xf : xf = mkPc cn (cat_type tn ty) (pc_notnull x0) (column_default_text (set_type ty c)) false.
+Proof.
+  unfold xf, x0. rewrite <- Ha1. rewrite <- mp_name, <- mp_cname. reflexivity.
+Qed.
+Lemma mp_type_exists n : type_exists n (catalog_of s) = false -> bt_mem n E = false /\ has_table n s = false.
+Proof. rewrite catalog_of_cat_with, type_exists_cat_with. intro H. now apply orb_false_iff in H. Qed.
+
+(* plain -> string enum *)
+Lemma path_to_enum nn nv :
+  let Nn := build_enum_type_name tn nn in
+  let Ln := enum_sql_values nv in
+  ty = TEnum nn nv -> is_enum_type (c_type c) = false -> ev_is_integer nv = false ->
+  other_col_with_enum s tn cn nn = false -> type_exists Nn (catalog_of s) = false -> labels_ok Ln = true ->
+  resolve_type (with_enums (catalog_of s) [(Nn, Ln)]) (sea_type tn ty) = Ok (Nn, false) ->
+  column_default_text (set_type ty c) = column_default_text c ->
+  exec_all (catalog_of s) (gen_modify_column_type s tn cn ty fw) = Ok (catalog_of s').
+Proof.
+  intros Nn Ln Hty Hp Hi Ho Hte HL Hres Hdef.
+  destruct (mp_type_exists _ Hte) as [Hm Htab].
+  pose proof (new_enum s tn cn t c ty s' cols' A C Hctx nn nv Hty Hi Ho) as Hperm.
+  pose proof (old_plain s tn cn t c ty s' cols' A C Hctx Hp) as HX.
+  fold Y X X' Nn Ln in Hperm, HX.
+  rewrite mp_final. rewrite Hty at 1. rewrite (gen_shape_to_enum s tn cn c nn nv fw mp_fc Hp Hi).
+  apply mp_fill. rewrite mp_start.
+  eapply exec_all_cons_ok; [apply (colcat_create_type s tn cn t mp_f x0 E Nn Ln HL Hm Htab)|].
+  eapply exec_all_cons_ok.
+  { apply (colcat_alter_type s tn cn t c mp_f mp_c x0 _ _ None Nn mp_x0n). rewrite <- Hty. exact Hres. }
+  cbn [exec_all]. f_equal. f_equal.
+  - rewrite mp_xf, Hdef, Hty. cbn [cat_type]. rewrite Hi.
+    f_equal; first [exact mp_x0n | reflexivity | (unfold x0; rewrite Ha0; reflexivity)].
+  - symmetry. rewrite mp_E. apply (enums_new_insert A X X' C (Nn, Ln)); [apply mp_nodup| |].
+    + cbn [fst]. rewrite <- mp_E. exact Hm.
+    + rewrite HX. exact Hperm.
+Qed.
+
+(* string enum -> plain *)
+Lemma path_from_enum on ov :
+  let No := build_enum_type_name tn on in
+  c_type c = TEnum on ov -> is_enum_type ty = false -> ev_is_integer ov = false ->
+  other_col_with_enum s tn cn on = false -> type_free (catalog_of s) tn cn No = true ->
+  String.eqb (cat_type tn ty) No = false ->
+  resolve_type (catalog_of s) (sea_type tn ty) = Ok (cat_type tn ty, false) ->
+  column_default_text (set_type ty c) = column_default_text c ->
+  exec_all (catalog_of s) (gen_modify_column_type s tn cn ty fw) = Ok (catalog_of s').
+Proof.
+  intros No Hct Hp Hi Ho Hfree Hne Hres Hdef.
+  pose proof (old_enum s tn cn t c ty s' cols' A C Hctx on ov Hct Hi Ho) as Hperm.
+  pose proof (new_plain s tn cn t c ty s' cols' A C Hctx Hp) as HX'.
+  fold Y X X' No in Hperm, HX'.
+  destruct (enums_old_remove A X Y C _ mp_nodup Hperm) as (Hrem & HndY & Hget). cbn [fst snd] in Hrem, Hget.
+  rewrite mp_final. rewrite (gen_shape_from_enum s tn cn c on ov ty fw mp_fc Hct Hp).
+  apply mp_fill. rewrite mp_start.
+  eapply exec_all_cons_ok.
+  { apply (colcat_alter_type s tn cn t c mp_f mp_c x0 E (sea_type tn ty) None (cat_type tn ty) mp_x0n). exact Hres. }
+  eapply exec_all_cons_ok.
+  { apply (colcat_drop_type s tn cn t mp_f No (enum_sql_values ov)); [exact Hfree|exact Hne|].
+    rewrite mp_E. exact Hget. }
+  cbn [exec_all]. f_equal. f_equal.
+  - rewrite mp_xf, Hdef.
+    f_equal; first [exact mp_x0n | reflexivity | (unfold x0; rewrite Ha0; reflexivity)].
+  - rewrite HX', mp_E. exact Hrem.
+Qed.
+
+(* the column while an enum-to-enum migration runs *)
+Lemma mp_enum_chain (E1 : list (string * list string)) T :
+  bt_mem T E1 = true ->
+  exists xb,
+    exec_all (colcat s t tn cn x0 E1)
+      (dd_stmts tn cn c ++ [SAlterTable tn [AAlterType cn (mkTy T true) (Some (qid cn +++ "::text::" +++ qid T))]])
+    = Ok (colcat s t tn cn xb E1)
+    /\ xb = mkPc cn T (pc_notnull x0) None false.
+Proof.
+  intro Hm. unfold dd_stmts.
+  assert (Hd0 : pc_default x0 = column_default_text c) by reflexivity.
+  destruct (c_default c) as [d|] eqn:Edef; cbn [app].
+  - eexists. split.
+    + eapply exec_all_cons_ok; [apply (colcat_drop_default s tn cn t c mp_f mp_c x0 E1 mp_x0n)|].
+      eapply exec_all_cons_ok; [apply (colcat_alter_type s tn cn t c mp_f mp_c _ E1 _ _ T); [exact mp_x0n|now apply resolve_quoted]|].
+      reflexivity.
+    + cbn [pc_name pc_type pc_notnull pc_default pc_autoinc orb]. now rewrite mp_x0n.
+  - eexists. split.
+    + eapply exec_all_cons_ok; [apply (colcat_alter_type s tn cn t c mp_f mp_c _ E1 _ _ T); [exact mp_x0n|now apply resolve_quoted]|].
+      reflexivity.
+    + rewrite Hd0. unfold column_default_text. rewrite Edef. unfold x0 at 3. rewrite Ha0. cbn [orb]. now rewrite mp_x0n.
+Qed.
+
+Lemma mp_set_default x (E1 : list (string * list string)) nn nv : ty = TEnum nn nv -> enum_default_ok c ty = true ->
+  x = mkPc cn (cat_type tn ty) (pc_notnull x0) None false ->
+  exec_all (colcat s t tn cn x E1) (sd_stmts tn cn c ty) = Ok (colcat s t tn cn xf E1).
+Proof.
+  intros Hty Hok ->. unfold sd_stmts, enum_default_ok in *. rewrite mp_xf.
+  destruct (c_default c) as [d|] eqn:Edef.
+  - apply andb_prop in Hok. destruct Hok as [H1 H2]. apply negb_true_iff in H1.
+    unfold dec_b in H2. destruct (option_eq_dec string_dec _ _) as [Heq|]; [|discriminate]. rewrite Heq.
+    eapply exec_all_cons_ok; [apply (colcat_set_default s tn cn t c mp_f mp_c (mkPc cn (cat_type tn ty) (pc_notnull x0) None false) E1 _ eq_refl H1)|]. reflexivity.
+  - cbn [exec_all]. unfold column_default_text. cbn [set_type c_default]. now rewrite Edef.
+Qed.
+
+(* string enum -> string enum of another name *)
+Lemma path_other_name on ov nn nv :
+  let No := build_enum_type_name tn on in
+  let Nn := build_enum_type_name tn nn in
+  let Ln := enum_sql_values nv in
+  c_type c = TEnum on ov -> ty = TEnum nn nv -> String.eqb on nn = false ->
+  ev_is_integer ov = false -> ev_is_integer nv = false ->
+  other_col_with_enum s tn cn on = false -> other_col_with_enum s tn cn nn = false ->
+  type_free (catalog_of s) tn cn No = true -> labels_ok Ln = true -> enum_default_ok c ty = true ->
+  String.eqb No Nn = false -> type_exists Nn (catalog_of s) = false ->
+  exec_all (catalog_of s) (gen_modify_column_type s tn cn ty fw) = Ok (catalog_of s').
+Proof.
+  intros No Nn Ln Hct Hty Hnn Hio Hin Hoo Hon Hfree HL Hdok Hne Hte.
+  destruct (mp_type_exists _ Hte) as [Hm Htab].
+  pose proof (old_enum s tn cn t c ty s' cols' A C Hctx on ov Hct Hio Hoo) as Hpo.
+  pose proof (new_enum s tn cn t c ty s' cols' A C Hctx nn nv Hty Hin Hon) as Hpn.
+  fold Y X X' No Nn Ln in Hpo, Hpn.
+  destruct (enums_old_remove A X Y C _ mp_nodup Hpo) as (Hrem & HndY & Hget). cbn [fst snd] in Hrem, Hget.
+  set (E1 := bt_insert Nn Ln E).
+  assert (Hm1 : bt_mem Nn E1 = true) by (unfold E1, bt_mem; now rewrite bt_get_insert, String.eqb_refl).
+  destruct (mp_enum_chain E1 Nn Hm1) as (xb & Hchain & Hxb).
+  rewrite mp_final. rewrite Hty at 1. rewrite (gen_shape_other_name s tn cn c on ov nn nv fw mp_fc Hct Hnn).
+  cbv zeta. fold No Nn Ln. apply mp_fill. rewrite mp_start. cbn [app].
+  eapply exec_all_cons_ok; [apply (colcat_create_type s tn cn t mp_f x0 E Nn Ln HL Hm Htab)|]. fold E1.
+  rewrite app_mid. eapply exec_all_app_ok; [exact Hchain|].
+  eapply exec_all_cons_ok.
+  { apply (colcat_drop_type s tn cn t mp_f No (enum_sql_values ov)); [exact Hfree| |].
+    - rewrite Hxb. cbn [pc_type]. now rewrite BtP.str_eqb_sym.
+    - unfold E1. rewrite bt_get_insert, Hne, mp_E. exact Hget. }
+  rewrite <- Hty. rewrite (mp_set_default xb _ nn nv Hty Hdok).
+  2:{ rewrite Hxb, Hty. cbn [cat_type]. now rewrite Hin. }
+  f_equal. f_equal. symmetry.
+  assert (HmY : bt_mem Nn (bt_of_list (A ++ Y ++ C)) = false).
+  { rewrite <- Hrem, <- mp_E, bt_mem_remove, Hm. apply andb_false_r. }
+  rewrite (enums_new_insert A Y X' C (Nn, Ln) HndY HmY Hpn). cbn [fst snd]. rewrite <- Hrem, <- mp_E. unfold E1.
+  symmetry. apply bt_remove_insert_ne; [apply mp_sorted|]. intro Heq. rewrite Heq, String.eqb_refl in Hne. discriminate.
+Qed.
+
+(* string enum -> the same name with other values: through the temporary type *)
+Lemma path_same_name on ov nv :
+  let N := build_enum_type_name tn on in
+  let T := N +++ "_new" in
+  let Ln := enum_sql_values nv in
+  c_type c = TEnum on ov -> ty = TEnum on nv -> dec_b enum_values_eq_dec ov nv = false ->
+  ev_is_integer ov = false -> ev_is_integer nv = false ->
+  other_col_with_enum s tn cn on = false ->
+  type_free (catalog_of s) tn cn N = true -> labels_ok Ln = true -> enum_default_ok c ty = true ->
+  String.eqb T N = false -> type_free (catalog_of s) tn cn T = true -> type_exists T (catalog_of s) = false ->
+  has_table N s = false ->
+  exec_all (catalog_of s) (gen_modify_column_type s tn cn ty fw) = Ok (catalog_of s').
+Proof.
+  intros N T Ln Hct Hty Hvals Hio Hin Hoo Hfree HL Hdok HTN HfreeT Hte HtabN.
+  destruct (mp_type_exists _ Hte) as [Hm Htab].
+  pose proof (old_enum s tn cn t c ty s' cols' A C Hctx on ov Hct Hio Hoo) as Hpo.
+  pose proof (new_enum s tn cn t c ty s' cols' A C Hctx on nv Hty Hin Hoo) as Hpn.
+  fold Y X X' N Ln in Hpo, Hpn.
+  destruct (enums_old_remove A X Y C _ mp_nodup Hpo) as (Hrem & HndY & Hget). cbn [fst snd] in Hrem, Hget.
+  set (E1 := bt_insert T Ln E).
+  assert (Hm1 : bt_mem T E1 = true) by (unfold E1, bt_mem; now rewrite bt_get_insert, String.eqb_refl).
+  destruct (mp_enum_chain E1 T Hm1) as (xb & Hchain & Hxb).
+  rewrite mp_final. rewrite Hty at 1. rewrite (gen_shape_same_name s tn cn c on ov nv fw mp_fc Hct Hvals).
+  cbv zeta. fold N T Ln. apply mp_fill. rewrite mp_start. cbn [app].
+  eapply exec_all_cons_ok; [apply (colcat_create_type s tn cn t mp_f x0 E T Ln HL Hm Htab)|]. fold E1.
+  rewrite app_mid. eapply exec_all_app_ok; [exact Hchain|].
+  assert (HNT : String.eqb N T = false) by (now rewrite BtP.str_eqb_sym).
+  eapply exec_all_cons_ok.
+  { apply (colcat_drop_type s tn cn t mp_f N (enum_sql_values ov)); [exact Hfree| |].
+    - rewrite Hxb. cbn [pc_type]. exact HTN.
+    - unfold E1. rewrite bt_get_insert, HNT, mp_E. exact Hget. }
+  eapply exec_all_cons_ok.
+  { apply (colcat_rename_type s tn cn t mp_f T N Ln xb); [exact HfreeT|now rewrite Hxb|now rewrite Hxb| | |exact HtabN].
+    - unfold bt_remove. rewrite bt_get_filter_key, HTN. unfold E1. now rewrite bt_get_insert, String.eqb_refl.
+    - now rewrite bt_mem_remove, String.eqb_refl. }
+  rewrite <- Hty. rewrite (mp_set_default _ _ on nv Hty Hdok).
+  2:{ rewrite Hxb, Hty. cbn [cat_type pc_name pc_notnull pc_default pc_autoinc]. now rewrite Hin. }
+  f_equal. f_equal. symmetry.
+  assert (HmY : bt_mem N (bt_of_list (A ++ Y ++ C)) = false).
+  { rewrite <- Hrem, bt_mem_remove, String.eqb_refl. reflexivity. }
+  rewrite (enums_new_insert A Y X' C (N, Ln) HndY HmY Hpn). cbn [fst snd]. f_equal.
+  rewrite <- Hrem, <- mp_E, bt_remove_comm. unfold E1. now rewrite (bt_remove_insert_same T Ln E mp_sorted Hm).
+Qed.
+End ModPaths.
+
+Theorem sim_pg_modify_column_type_enum s tn cn ty fw :
+  hyp_modify_type_enum s tn cn ty = true -> step_sim s (ModifyColumnType tn cn ty fw).
+Proof.
+  unfold hyp_modify_type_enum, column_frame. intro H. apply andb_prop in H. destruct H as [H Hd].
+  apply andb_prop in H. destruct H as [Hnd Hcnd].
+  destruct (the_column s tn cn) as [[t c]|] eqn:Ecol; [|discriminate].
+  destruct (the_column_spec _ _ _ _ _ Ecol) as (Hf & Hc & Hfc).
+  apply andb_prop in Hd. destruct Hd as [Hd Hpath].
+  apply andb_prop in Hd. destruct Hd as [Hd Ha1]. apply andb_prop in Hd. destruct Hd as [Hend Ha0].
+  apply negb_true_iff in Ha0, Ha1.
+  destruct (mod_core s tn cn t c ty Hnd Hf Hc Hcnd) as (s' & cols' & A & C & Hctx).
+  assert (Hup : update_table tn (update_column tn cn (set_type ty)) s = Ok s') by apply Hctx.
+  unfold step_sim. rewrite (step_schema_ok s _ s') by exact Hup.
+  eexists. split; [reflexivity|].
+  assert (Hdec : forall a b : option string, dec_b (option_eq_dec string_dec) a b = true -> a = b).
+  { intros a b. unfold dec_b. now destruct (option_eq_dec string_dec a b). }
+  destruct (c_type c) as [st|vl|np ns|cl|cu|on ov] eqn:Ect;
+    destruct ty as [st'|vl'|np' ns'|cl'|cu'|nn nv] eqn:Ety; try discriminate; cbv zeta in Hpath.
+  1-5: (repeat (apply andb_prop in Hpath; destruct Hpath as [Hpath ?]);
+        match goal with
+        | Hr : match resolve_type ?c0 ?t0 with _ => _ end = true |- _ =>
+            destruct (resolve_type c0 t0) as [[x b]|] eqn:Eres; [|discriminate];
+            destruct b; [discriminate|]; apply String.eqb_eq in Hr; subst x
+        end;
+        apply (path_to_enum s tn cn t c _ fw s' cols' A C Hctx Hend Ha0 Ha1 nn nv eq_refl);
+        [rewrite Ect; reflexivity| now apply negb_true_iff | now apply negb_true_iff | now apply negb_true_iff
+         | assumption | exact Eres | now apply Hdec]).
+  1-5: (repeat (apply andb_prop in Hpath; destruct Hpath as [Hpath ?]);
+        match goal with
+        | Hr : match resolve_type ?c0 ?t0 with _ => _ end = true |- _ =>
+            destruct (resolve_type c0 t0) as [[x b]|] eqn:Eres; [|discriminate];
+            destruct b; [discriminate|]; apply String.eqb_eq in Hr; subst x
+        end;
+        apply (path_from_enum s tn cn t c _ fw s' cols' A C Hctx Hend Ha0 Ha1 on ov Ect eq_refl);
+        [now apply negb_true_iff | now apply negb_true_iff | assumption | now apply negb_true_iff
+         | exact Eres | now apply Hdec]).
+  repeat (apply andb_prop in Hpath; destruct Hpath as [Hpath ?]).
+  rename Hpath into Hio, H into Hbranch, H0 into Hdok, H1 into HL, H2 into Hfree, H3 into Hoo, H4 into Hin.
+  apply negb_true_iff in Hio, Hin, Hoo.
+  destruct (String.eqb on nn) eqn:Enn.
+  - apply String.eqb_eq in Enn. subst nn.
+    repeat (apply andb_prop in Hbranch; destruct Hbranch as [Hbranch ?]).
+    apply (path_same_name s tn cn t c _ fw s' cols' A C Hctx Hend Ha0 Ha1 on ov nv Ect eq_refl);
+      try assumption; now apply negb_true_iff.
+  - repeat (apply andb_prop in Hbranch; destruct Hbranch as [Hbranch ?]).
+    apply (path_other_name s tn cn t c _ fw s' cols' A C Hctx Hend Ha0 Ha1 on ov nn nv Ect eq_refl Enn);
+      try assumption; now apply negb_true_iff.
+Qed.
